@@ -450,6 +450,8 @@ class _StubInterp:
             raise ValueError("points must be (n, 2)")
         if self.values.shape != (self.points.shape[0],):
             raise ValueError("different number of values and points")
+        if self.kind != "NearestNDInterpolator" and self.points.shape[0] < 3:
+            raise RuntimeError("QhullError (modelled): not enough points (%d) to construct initial simplex" % self.points.shape[0])
         key = (self.kind, tuple(sorted((k, repr(v)) for k, v in kw.items())), tuple(z3.simplify(T(x)).sexpr() for x in self.points.ravel()), tuple(z3.simplify(T(x)).sexpr() for x in self.values.ravel()))
         self.iid = _INTERP_IDS.setdefault(key, len(_INTERP_IDS) + 1)
         eng = E.ENGINE
@@ -473,7 +475,17 @@ class _StubInterp:
 
 
 class StubLinearND(_StubInterp):
+    """piecewise-linear interpolation is a convex combination of the data values: every value it returns
+    (inside the hull) lies between the smallest and the largest datum"""
+
     kind = "LinearNDInterpolator"
+
+    def __call__(self, *args):
+        out = _StubInterp.__call__(self, *args)
+        vals = [T(v) for v in self.values.ravel()]
+        for v in out.ravel():
+            E.ENGINE.add(z3.Or(*[v.t >= w for w in vals]), z3.Or(*[v.t <= w for w in vals]))
+        return out
 
 
 class StubCloughTocher(_StubInterp):
